@@ -1,0 +1,66 @@
+//go:build verif
+// +build verif
+
+package service
+
+import (
+	"com.tuntun.rangers/node/src/common"
+	lru "github.com/hashicorp/golang-lru"
+)
+
+// Verification hook for property C17 (build tag verif only, add-only).
+//
+// The harness drives the pool created by the node's own start-up
+// (InitService -> newTransactionPool) so that the real constructor and the
+// real constants are exercised. Between op scripts it needs an empty pool,
+// sometimes with a small pending limit (to reach the "pool full" branch of
+// simpleContainer.push without 50000 adds), and it must be able to run the
+// expiry step (growRing) that the node only runs from a one-minute ticker.
+
+// VerifPoolReset empties the pool: all executed records and the gate nonce are
+// deleted, the pending batch is reset, the pending container is replaced by a
+// fresh one whose expiry ticker is stopped (so that only VerifPoolGrowRing
+// advances rings), the evicted cache is replaced. limit <= 0 keeps the real
+// pending limit of a fresh container (rcvTxPoolSize).
+func VerifPoolReset(p TransactionPool, limit int) {
+	pool := p.(*TxPool)
+	it := pool.executed.NewIterator()
+	keys := make([][]byte, 0)
+	for it.Next() {
+		keys = append(keys, common.CopyBytes(it.Key()))
+	}
+	it.Release()
+	for _, k := range keys {
+		pool.executed.Delete(k)
+	}
+	pool.batch.Reset()
+	if pool.received != nil && pool.received.txCycleTicker != nil {
+		pool.received.txCycleTicker.Stop()
+	}
+	pool.received = newSimpleContainer(rcvTxPoolSize)
+	pool.received.txCycleTicker.Stop()
+	if limit > 0 {
+		pool.received.limit = limit
+	}
+	pool.evictedTxs, _ = lru.New(txCacheSize)
+}
+
+// VerifPoolGrowRing runs one expiry cycle of the pending container.
+func VerifPoolGrowRing(p TransactionPool) {
+	p.(*TxPool).received.growRing()
+}
+
+// VerifPoolLimit returns the pending limit of the live container.
+func VerifPoolLimit(p TransactionPool) int {
+	return p.(*TxPool).received.limit
+}
+
+// VerifPoolEvictedContains reports whether the evicted cache holds the hash.
+func VerifPoolEvictedContains(p TransactionPool, h common.Hash) bool {
+	return p.(*TxPool).evictedTxs.Contains(h)
+}
+
+// VerifPoolConsts dumps the constants the C17 model depends on.
+func VerifPoolConsts() (rcvPoolSize int, perBlock int, ringExpire int, evictedCache int) {
+	return rcvTxPoolSize, txCountPerBlock, expiredRing, txCacheSize
+}
